@@ -10,7 +10,11 @@ use text_utils::unicode::{normalize, Normalization};
 use text_utils::utils::SerializeMsgPack;
 
 fn tmp() -> String {
-    let d = format!("/verif/work/bpetrain-{}", std::process::id());
+    // inside the run directory of this shard (removed by ./check with it); replays fall back to /verif/work
+    let d = match std::env::var("TU_HARNESS_TMP") {
+        Ok(root) => format!("{root}/bpetrain"),
+        Err(_) => format!("/verif/work/bpetrain-{}", std::process::id()),
+    };
     std::fs::create_dir_all(&d).ok();
     d
 }
